@@ -10,7 +10,7 @@ using vh::Choices;
 
 namespace {
 
-struct Flags { bool pin = false, check = false, dbl = false, epLegal = false, epPinned = false, castleBlocked = false, promo = false, manyLike = false; };
+struct Flags { bool epCheck = false, pin = false, check = false, dbl = false, epLegal = false, epPinned = false, castleBlocked = false, promo = false, manyLike = false; };
 
 // classification of a position for the non-triviality rule (uses refchess only)
 Flags classify(const ref::Pos& p, const std::vector<ref::Move>& legal) {
@@ -35,7 +35,7 @@ Flags classify(const ref::Pos& p, const std::vector<ref::Move>& legal) {
     // pinned man: a pseudo-legal non-king move that is illegal although the king is not in check
     if (!f.check)
         for (auto& m : ps) if (ref::lower(p.b[m.from]) != 'k' && !ref::isEp(p, m) && std::find(legal.begin(), legal.end(), m) == legal.end()) { f.pin = true; break; }
-    for (auto& m : ps) if (ref::isEp(p, m)) { if (std::find(legal.begin(), legal.end(), m) != legal.end()) f.epLegal = true; else f.epPinned = true; }
+    for (auto& m : ps) if (ref::isEp(p, m)) { if (std::find(legal.begin(), legal.end(), m) != legal.end()) { f.epLegal = true; if (ref::givesCheck(p, m)) f.epCheck = true; } else f.epPinned = true; }
     for (auto& m : legal) if (m.promo) f.promo = true;
     // castling right present but the castling move is not legal now
     auto has = [&](int from, int to) { ref::Move m; m.from = from; m.to = to; return std::find(legal.begin(), legal.end(), m) != legal.end(); };
@@ -167,6 +167,7 @@ void noteClasses(const ref::Pos& r, const std::vector<ref::Move>& legal, vh::Sta
     if (f.dbl) st.clsSample("double check", mk);
     if (f.epLegal) st.clsSample("legal e.p.", mk);
     if (f.epPinned) st.clsSample("e.p. illegal by pin/check", mk);
+    if (f.epCheck) st.clsSample("e.p. capture gives check", mk);
     if (f.castleBlocked) st.clsSample("castling right but path blocked/attacked", mk);
     if (f.promo) st.clsSample("promotion available", mk);
     if (f.manyLike) st.clsSample(">=2 like pieces to one square", mk);
